@@ -647,6 +647,9 @@ fn drive<R: HRole>(rng: &mut Rng, role_n: u64, ver: u64, bias: u64, abuse: bool,
                     } else {
                         peer_traffic(&mut run, rng, &mut g, &s, wv, bias, &mut st, abuse, &small_ids);
                     }
+                } else if (!s.pid_puback.is_empty() || !s.pid_pubrec.is_empty() || !s.pid_pubcomp.is_empty()) && rng.chance(1, 3) {
+                    // exchanges of the previous connection are still open: the peer may answer them before our CONNACK is out
+                    peer_traffic(&mut run, rng, &mut g, &s, wv, bias, &mut st, abuse, &small_ids);
                 } else if rng.chance(if bias == 13 { 1 } else { 3 }, if bias == 13 { 2 } else { 4 }) {
                     let p = mk_connack(rng, wv);
                     run.apply(&Op::Send(p), &mut st);
